@@ -60,16 +60,31 @@ def collect : List String → Option (List Ev)
     let b ← collect ts
     pure (a ++ b)
 
-def step (m : Mon) (line : String) : Mon × String :=
+/-- driver state: the monitor, or `none` before the `reset` line of a case (every case starts with the
+line `begin`, written by the harness itself, which forgets the previous case's connection) -/
+abbrev St := Option Mon
+
+def step (st : St) (line : String) : St × String :=
   let (at_, ot) := splitArrow (tokens line)
-  match at_ with
-  | ["reset", _] => (Mon.init, "ok")
-  | _ =>
+  match at_, st with
+  | ["begin"], _ => (none, "ok")
+  | ["reset", r], none =>
+    if ["default", "rr", "p9218", "client"].contains r then
+      match collect ot with
+      | some b =>
+        match Mon.init.run b with
+        | .ok m' => (some m', "ok")
+        | .error e => (some Mon.init, s!"reject {e}")
+      | none => (st, "bad-op")
+    else (st, "bad-op")
+  | "reset" :: _, _ => (st, "bad-op")
+  | _, none => (st, "bad-op")
+  | _, some m =>
     match parseAct at_, collect ot with
     | some a, some b =>
       match m.run (a ++ b) with
-      | .ok m' => (m', "ok")
-      | .error e => (m, s!"reject {e}")
-    | _, _ => (m, "bad-op")
+      | .ok m' => (some m', "ok")
+      | .error e => (some m, s!"reject {e}")
+    | _, _ => (st, "bad-op")
 
 end NetVerif.Driver.SendWin
